@@ -5,12 +5,12 @@
    the poll methods), any wait limit.  Because `wf_scenario` quantifies over the method and the fault set, every
    clause below is a statement about every method and every fault sequence.
    STATUS: the full statement is `mon_all (run_scenario sc) = true /\ mon_guard sc (run_scenario sc) = true`
-   (Properties_C15.v.draft).  Proved here: every tracker clause except 711 (no busy polling); the guard clauses
-   1101/1102 and 711 are checked on every model and implementation trace by the extracted monitors while their
-   proofs are being completed. *)
+   (Properties_C15.v.draft).  Proved here: the whole guard monitor and every tracker clause except 711 (two consecutive waits that return at
+   once without a callback in between), which is checked on every model and implementation trace by the extracted
+   monitor while its proof is being completed. *)
 From Coq Require Import List ZArith Bool Lia.
 From Ivv Require Import Core.Kernel Core.CoreTypes Core.CoreFd Core.CoreModel Core.Monitors Core.GuardMon Core.CoreSpec
-  Core.CoreRel Core.CoreCodes Core.CorePhase2Fd Core.CorePhase2Ei Core.CorePhase2AcctIdleTop Core.CoreAll Core.CoreExamples.
+  Core.CoreRel Core.CoreCodes Core.CorePhase2Fd Core.CorePhase2Ei Core.CorePhase2GuardAll Core.CoreAll Core.CoreExamples.
 Import ListNotations.
 Local Open Scope Z_scope.
 
@@ -28,16 +28,14 @@ Theorem C15_all_methods_all_faults_partial :
 Proof. exact core_all_but_711. Qed.
 Print Assumptions C15_all_methods_all_faults_partial.
 
-(* guard monitor: no kernel interest entry survives an unregistration, on either epoll method and with EINTR on
-   epoll_ctl (1104); the loop never polls twice in a row without sleeping, reporting or calling anything (1103) *)
-Theorem C15_guard_clauses_partial :
-  forall sc, wf_scenario sc -> forall c, In c (gmon_fails sc (run_scenario sc)) -> ~ In c [1103; 1104].
-Proof.
-  intros sc WF c Hin [<-|[<-|[]]].
-  - exact (core_gmon_1103 sc WF _ Hin (or_introl eq_refl)).
-  - exact (core_gmon_1104 sc WF _ Hin (or_introl eq_refl)).
-Qed.
-Print Assumptions C15_guard_clauses_partial.
+(* the guard monitor is silent on every method under every fault set: exactly the scripted API calls that the
+   documented state allows are executed (1101/1102), the loop never polls twice in a row without sleeping, reporting
+   or calling anything (1103), no kernel interest entry survives an unregistration, on either epoll method and with
+   EINTR on epoll_ctl (1104) *)
+Theorem C15_guard_monitor :
+  forall sc, wf_scenario sc -> mon_guard sc (run_scenario sc) = true.
+Proof. exact core_gmon_all. Qed.
+Print Assumptions C15_guard_monitor.
 
 (* non-vacuity: the same program is well-formed on all four methods, without faults and with faults (epoll_pwait2,
    timerfd, ppoll, eventfd2 and eventfd missing; the second wait interrupted), runs every kind of callback in both
